@@ -22,6 +22,29 @@ func getWithVar(doc *Document, docs []*Document, ec *EvalContext, m any) (any, e
 	return ret, nil
 }
 
+// getRef resolves a $merge/$replace reference to a private copy of the
+// referenced subtree. A reference to a subtree that contains host, or any map
+// whose own $merge is still being resolved, can never be completed and is
+// reported as circular.
+func getRef(doc *Document, docs []*Document, m any, host map[string]any) (any, error) {
+	in, err := get(doc, docs, m)
+	if err != nil {
+		return nil, err
+	}
+
+	if host != nil && containsMap(in, host) {
+		return nil, fmt.Errorf("%v: %w", m, ErrCircularRef)
+	}
+
+	for _, r := range doc.resolving {
+		if containsMap(in, r) {
+			return nil, fmt.Errorf("%v: %w", m, ErrCircularRef)
+		}
+	}
+
+	return cloneTree(in), nil
+}
+
 func get(doc *Document, docs []*Document, m any) (any, error) {
 	switch m2 := m.(type) {
 	case string:
